@@ -115,8 +115,14 @@ class Report:
         s.extra = {}
 
     # -- recording
-    def ob(s, rule, ok, where, construct=None, message=None, detail=None, sample=None):
+    def ob(s, rule, ok, where, construct=None, message=None, detail=None, sample=None, loop_rule=False):
         """one obligation; a failed one becomes a violation keyed by rule + construct"""
+        if not ok and not loop_rule and message and any(m in message for m in ('<loopvar ', '<unk ', '<localfunc ')):
+            # the value that failed the rule contains a placeholder of the evaluator (a variable rewritten in a loop that was
+            # abstracted, an unmodelled construct): the rule did not see the real value, so this is not a decision
+            # (rules ABOUT loop-carried variables pass loop_rule=True: there the placeholder is the subject)
+            s.unknown('%s [%s at %s]: the value is only known up to an abstraction of the path evaluator -- %s' % (rule, construct or '', where, message[:160]))
+            return None
         s.obligations.append(dict(rule=rule, ok=bool(ok), where=where))
         if not ok:
             s.violations.append(dict(rule=rule, construct=construct or where, where=where,
